@@ -41,6 +41,8 @@ struct Th {
     pending_sig: i32,
     hold: u64,
     upark: bool,
+    spun: bool,
+    no_step: bool,
 }
 
 #[derive(Clone)]
@@ -98,7 +100,7 @@ pub struct SchedCfg {
     pub ustep_after: u64,
     // a thread parked in user space is not eligible for a seeded number (<= ustep_hold) of the following decisions
     pub ustep_hold: u64,
-    // total single-steps per run (cost bound); user-space preemption stops for the rest of the run once it is used up
+    // number of preemption attempts per run (cost bound, counted in decisions so that it cannot depend on instruction counts)
     pub ustep_budget: u64,
 }
 
@@ -150,9 +152,11 @@ pub struct Sup {
     prio_rng: Rng,
     ustep_rng: Rng,
     usteps: u64,
+    uattempts: u64,
     proj: Vec<(u64, u64)>,
     proj_loaded: bool,
     force_park: bool,
+    force_next: Option<usize>,
     seg_cpu0: u64,
     pct_points: Vec<u64>,
     pct_low: i64,
@@ -298,9 +302,11 @@ impl Sup {
             prio_rng: Rng::new(seed, "prio"),
             ustep_rng: Rng::new(seed, "ustep"),
             usteps: 0,
+            uattempts: 0,
             proj: Vec::new(),
             proj_loaded: false,
             force_park: false,
+            force_next: None,
             seg_cpu0: 0,
             pct_points: Vec::new(),
             pct_low: -1,
@@ -487,6 +493,8 @@ impl Sup {
             pending_sig: 0,
             hold: 0,
             upark: false,
+            spun: false,
+            no_step: false,
         });
         let p = self.new_prio();
         self.ths[0].prio = p;
@@ -517,6 +525,14 @@ impl Sup {
     }
 
     fn pick_inner(&mut self, ready: &[usize]) -> usize {
+        if let Some(f) = self.force_next.take() {
+            if ready.contains(&f) {
+                if self.cfg.sched.kind == "explicit" {
+                    self.explicit_pos += 1;
+                }
+                return f;
+            }
+        }
         // threads parked in user space stay parked for a while (a longer preemption), unless nothing else can run
         let mut cand: Vec<usize> = ready.iter().cloned().filter(|&i| self.ths[i].hold == 0).collect();
         for &i in ready {
@@ -654,6 +670,7 @@ impl Sup {
                 }
             }
             self.ths[i].upark = false;
+            self.ths[i].spun = false;
             self.resume(i);
         }
     }
@@ -747,7 +764,7 @@ impl Sup {
         if state != 'R' {
             return;
         }
-        if thread_cpu_ns(self.pid, tid).saturating_sub(self.seg_cpu0) < 60_000_000 {
+        if thread_cpu_ns(self.pid, tid).saturating_sub(self.seg_cpu0) < 250_000_000 {
             return;
         }
         unsafe { libc::syscall(libc::SYS_tgkill, self.pid, tid, libc::SIGSTOP) };
@@ -798,8 +815,11 @@ impl Sup {
                 Ev::Syscall => return true,
                 Ev::Event(_) => continue,
                 Ev::Sig(s) => {
-                    // should not happen between entry and exit; keep the signal for later
-                    self.ths[i].pending_sig = s;
+                    // should not happen between entry and exit; keep the signal for later (SIGSTOP is only ever sent by the
+                    // supervisor itself and is never passed on)
+                    if s != libc::SIGSTOP {
+                        self.ths[i].pending_sig = s;
+                    }
                     continue;
                 }
                 Ev::Timeout => {
@@ -1004,9 +1024,13 @@ impl Sup {
 
     fn run_until_point(&mut self, i: usize) {
         let tid = self.ths[i].tid;
+        // a thread that was stopped at an arbitrary point of a busy-wait loop is not single-stepped until its next system call:
+        // instruction counts from a timing-dependent position would not replay
+        let skip_step = std::mem::replace(&mut self.ths[i].no_step, false);
         loop {
-            if self.cfg.sched.ustep_p > 0.0 && self.usteps < self.cfg.sched.ustep_budget && (self.cfg.sched.ustep_main || self.ths[i].lid != 0) && self.ths.len() > 2 {
+            if !skip_step && self.cfg.sched.ustep_p > 0.0 && self.uattempts < self.cfg.sched.ustep_budget && (self.cfg.sched.ustep_main || self.ths[i].lid != 0) && self.ths.len() > 2 {
                 if self.ustep_rng.f64() < self.cfg.sched.ustep_p {
+                    self.uattempts += 1;
                     // log-uniform instruction count: windows right after a call and far from it are both reached
                     let bits = 1 + self.ustep_rng.below(64 - (self.cfg.sched.ustep_max.max(2) - 1).leading_zeros() as u64);
                     let k = 1 + self.ustep_rng.below(1u64 << bits).min(self.cfg.sched.ustep_max);
@@ -1074,6 +1098,18 @@ impl Sup {
                                 t.hold = 0;
                             }
                         }
+                        // like a yield: a busy-waiting thread must not outrank the thread it waits for
+                        if self.cfg.sched.kind == "pct" {
+                            self.ths[i].prio = self.pct_low;
+                            self.pct_low -= 1;
+                        }
+                        if self.cfg.sched.kind == "rtb" || self.cfg.sched.kind == "explicit" {
+                            self.cur = None;
+                        }
+                        self.ths[i].spun = true;
+                        self.ths[i].no_step = true;
+                        // the thread it waits for is (almost always) one of those parked in user space: run the oldest of them next
+                        self.force_next = (0..self.ths.len()).find(|&j| j != i && self.ths[j].upark && !self.ths[j].spun && self.ths[j].st == St::Ready);
                         self.bump("spin-wait-preempt");
                         return;
                     }
@@ -1301,6 +1337,8 @@ impl Sup {
                     pending_sig: 0,
                     hold: 0,
                     upark: false,
+                    spun: false,
+                    no_step: false,
                 });
                 // finish the parent's call
                 self.to_exit_stop(i)
@@ -1785,7 +1823,7 @@ impl Sup {
             "sandbox" => ci.sb || ci.mutating || ci.fields.contains_key("upd"),
             _ => true,
         };
-        if keep && self.events.len() >= 40_000 {
+        if keep && self.events.len() >= 150_000 {
             // runaway run: keep the head of the log only (the run ends in a budget violation anyway)
             self.events_dropped += 1;
         } else if keep {
